@@ -37,7 +37,7 @@ CHECKS = {
                 note='Trusted base: simpool/simmpi, mdtraj rmsd as reference metric for trajectories, float64 norms for features. <= 8 files x <= 8 frames, <= 5 centres; <= 40 frames for partition.'),
     'C15': dict(engine='simpool+simmpi', design='5/C15, 4.2',
                 technique='deterministic simulation: in-process multiprocessing.Pool with per-worker forked-globals overlays; tape-chosen worker count, dispatch/completion order, lazy vs eager background progress and read faults; striped loaders on simulated MPI ranks; save/load round trips against the saved rows',
-                note='Trusted base: simpool semantics (modelled on CPython multiprocessing.pool), mdtraj and PyTables as reference readers, NumPy. Tasks are atomic. <= 12 files x <= 12 frames x <= 9 atoms; <= 120 rows (1100 thorough).'),
+                note='Trusted base: simpool semantics (modelled on CPython multiprocessing.pool), mdtraj and PyTables as reference readers, NumPy. Tasks are atomic. <= 12 files x <= 12 frames x <= 9 atoms; <= 120 rows (1100 thorough), rows up to 20 000 elements (longer than one HDF5 chunk). Faults: read errors and short reads per file, ENOSPC / ENOMEM when the shared array is created; after a failed load the same load must succeed.'),
     'C13': dict(engine='simgomp+simalloc', design='5/C13, 4.3',
                 technique='deterministic simulation: the unmodified compiled kernels linked against a simulated OpenMP runtime (virtual-thread teams with tape-chosen order, snapshot-isolated memory merged last-writer-wins) on a poisoned, red-zoned heap; exact rational reference',
                 note='Trusted base: simgomp/simalloc (sim/native/simrt.c), exact-arithmetic reference, NumPy. Segments between barriers are not interleaved at instruction level; snapshot isolation is the stricter memory model used instead. 0..70 samples x 0..9 features, teams of 1..64.'),
@@ -46,16 +46,16 @@ CHECKS = {
                 note='Trusted base: simgomp/simalloc, exact counting model, float64 MI/entropy model. 1..40 frames, 1..5 features and 2..5 states per side.'),
     'C01': dict(engine='simmpi+simalloc+history', design='5/C01',
                 technique='deterministic simulation: every clustering entry point run serially and on N simulated MPI ranks under a seeded scheduler; k-medoids accept/reject histories driven from the tape through the warm-start/proposals interface; float64 reference model checked after every sweep',
-                note='Trusted base: simmpi, the float64 metric/consistency model, NumPy. Bounds: <= 48 frames, <= 8 clusters, <= 5 sweeps, dims 1-4, 1..6 ranks. Ties may be broken either way.'),
+                note='Trusted base: simmpi, the float64 metric/consistency model (mdtraj.rmsd with an explicit last-bit allowance for md.Trajectory data), NumPy. Bounds: <= 48 frames, <= 8 clusters, <= 5 sweeps, dims 1-4 or 6-10 atoms, 1..6 ranks. Metrics: euclidean, manhattan, user callables (one reusing its output buffer, one violating the triangle inequality), RMSD on trajectories (also pre-centred). Results also go through pickle / deepcopy. Ties may be broken either way.'),
     'C02': dict(engine='simmpi+simalloc', design='5/C02',
                 technique='deterministic simulation: k-centers run serially and on N simulated MPI ranks under a seeded scheduler with poisoned receive buffers; independent greedy farthest-point replay as oracle, prefix runs and shortcut on/off as differential clauses, exhaustive optimum on tiny instances',
                 note='Trusted base: simmpi, the greedy replay model, NumPy. Bit-for-bit clauses only on model-classified tie-free scenarios; stopping decisions within 1e-6 of the cutoff accepted either way. Non-termination is reported as no_progress via a 25 s CPU-time budget per run.'),
     'C09': dict(engine='simmpi+simalloc+history', design='5/C09',
                 technique='deterministic simulation: tape-driven k-medoids proposal histories (serial and N simulated MPI ranks with seeded allreduce association order), reproducibility under perturbed global RNG, interleaved calls and heap poison',
-                note='Trusted base: simmpi, cost model, NumPy. Cost comparisons allow 4n ulp. Bounds: <= 48 frames, <= 6 sweeps, 1..6 ranks.'),
+                note='Trusted base: simmpi, cost model, NumPy. Cost comparisons allow 4n ulp (1e-5 for float32 RMSD values). Bounds: <= 48 frames, <= 6 sweeps, 1..6 ranks; estimators also configured after construction; seed 0 included.'),
     'C14': dict(engine='simmpi+simalloc', design='5/C14, 4.1',
                 technique='deterministic simulation: N simulated MPI ranks (baton-passing threads behind a fake mpi4py) under a seeded scheduler with eager roots, reduction reassociation and poisoned receive buffers; refinement against the serial run and serial definitions',
-                note='Trusted base: simmpi collective semantics (taken from mpi4py docs, no real MPI available), the float64 reference models, NumPy. Explores world sizes 1..8 (12 thorough), <= 24 trajectories, <= 60 frames.'),
+                note='Trusted base: simmpi collective semantics (taken from mpi4py docs, no real MPI available), the float64 reference models, NumPy. Explores world sizes 1..8 (12 thorough), <= 24 trajectories, <= 60 frames; a tenth of the runs drive the command-line front end end to end (feature files, or trajectory files with --topology/--atoms/--subsample in up to three groups, loaded through the simulated worker pool).'),
 }
 
 
